@@ -489,6 +489,107 @@ fn classdef_set_builder_oracle(rng: &mut Rng, st: &mut Stats, n: usize) {
     }
 }
 
+/// The PUBLIC ClassDefBuilder API driven directly: sequences of 3-8 checked_add calls over a small universe — classes
+/// equal to / nested in / overlapping / disjoint from earlier ATTEMPTED classes (accepted or rejected), so that a
+/// rejected call is followed by classes touching only its non-conflicting glyphs — every return value, the final
+/// build_with_mapping and the compiled ClassDef answer for every glyph compared with a reference and (shards) the model.
+fn classdef_builder_sequence_cases(rng: &mut Rng, st: &mut Stats, cw: &mut CaseWriter, n: usize) {
+    for case in 0..n {
+        let use0 = rng.chance(1, 2);
+        let base = match rng.below(4) { 0 => 0u16, 1 => 65520, _ => rng.below(3000) as u16 };
+        let usize_ = 5 + rng.below(9) as u16;
+        let universe: Vec<u16> = (0..usize_).map(|k| base + k).collect();
+        let mut b = if use0 { ClassDefBuilder::new_using_class_0() } else { ClassDefBuilder::new() };
+        let mut attempted: Vec<BTreeSet<u16>> = vec![];
+        let mut accepted: Vec<BTreeSet<u16>> = vec![];
+        let mut used: BTreeSet<u16> = BTreeSet::new();
+        let mut calls: Vec<(Vec<u16>, bool)> = vec![];
+        let ncalls = 3 + rng.below(6);
+        for _ in 0..ncalls {
+            let fresh = |rng: &mut Rng| -> BTreeSet<u16> { (0..1 + rng.below(3)).map(|_| *rng.pick(&universe)).collect() };
+            let s: BTreeSet<u16> = if attempted.is_empty() {
+                fresh(rng)
+            } else {
+                let e = rng.pick(&attempted).clone();
+                let ev: Vec<u16> = e.iter().copied().collect();
+                match rng.below(10) {
+                    0 | 1 => e.clone(),                                                 // identical class again
+                    2 | 3 => e.iter().copied().chain([*rng.pick(&universe)]).collect(),   // superset
+                    4 | 5 | 6 => {
+                        // a non-empty subset, possibly with one new glyph
+                        let mut t: BTreeSet<u16> = ev.iter().copied().filter(|_| rng.chance(1, 2)).collect();
+                        if t.is_empty() {
+                            t.insert(*rng.pick(&ev));
+                        }
+                        if rng.chance(1, 3) {
+                            t.insert(*rng.pick(&universe));
+                        }
+                        t
+                    }
+                    _ => fresh(rng),
+                }
+            };
+            // reference: accept iff the identical class is present or no glyph belongs to an ACCEPTED class
+            let ok = accepted.contains(&s) || s.iter().all(|g| !used.contains(g));
+            let mut order: Vec<u16> = s.iter().copied().collect();
+            if rng.chance(1, 3) {
+                rng.shuffle(&mut order);
+            }
+            let added = b.checked_add(order.iter().map(|g| gid(*g)).collect());
+            st.evaluations += 1;
+            if added != ok {
+                st.oracle_failure(json!({"key": format!("cdb-seq-return:{:?}", calls.iter().map(|c| &c.0).chain([&order]).collect::<Vec<_>>()), "what": "checked_add returned the wrong answer for this call sequence",
+                    "expected": ok, "got": added}));
+            }
+            st.count(if ok { "cdb_seq_accepted" } else { "cdb_seq_rejected" });
+            if ok && !accepted.contains(&s) {
+                used.extend(s.iter().copied());
+                accepted.push(s.clone());
+            }
+            attempted.push(s);
+            calls.push((order, added));
+        }
+        // expected ids: larger classes first, ties by lowest glyph
+        let mut sorted = accepted.clone();
+        sorted.sort_by_key(|c| (std::cmp::Reverse(c.len()), *c.iter().next().unwrap()));
+        let lo = if use0 { 0u16 } else { 1 };
+        let (cd, map) = b.build_with_mapping();
+        let keyfn = |c: &BTreeSet<u16>| -> read_fonts::collections::IntSet<GlyphId16> { c.iter().map(|g| gid(*g)).collect() };
+        let seqdesc = format!("{:?}", calls.iter().map(|c| &c.0).collect::<Vec<_>>());
+        if map.len() != sorted.len() || sorted.iter().enumerate().any(|(i, c)| map.get(&keyfn(c)).copied() != Some(lo + i as u16)) {
+            st.oracle_failure(json!({"key": format!("cdb-seq-mapping:{}", seqdesc), "what": "build_with_mapping differs from the accepted classes ordered by (size desc, first glyph)"}));
+        }
+        let bytes = match catch(move || write_fonts::dump_table(&cd).unwrap()) {
+            Ok(b) => b,
+            Err(e) => {
+                st.oracle_failure(json!({"key": format!("cdb-seq-compile:{}", seqdesc), "what": "compiling the ClassDef panicked", "err": e}));
+                continue;
+            }
+        };
+        let mut probes: Vec<(i64, i64)> = vec![];
+        for g in universe.iter().copied().chain([base.wrapping_sub(1), base.wrapping_add(usize_)]) {
+            let r = cd_probe(&bytes, g);
+            let exp = sorted.iter().position(|c| c.contains(&g)).map(|i| lo as i64 + i as i64).unwrap_or(0);
+            if r != exp {
+                st.oracle_failure(json!({"key": format!("cdb-seq-get:{}:{}", seqdesc, g), "what": "compiled ClassDef answers another class than the accepted classes give", "expected": exp, "got": r}));
+            }
+            probes.push((g as i64, r));
+        }
+        if calls.iter().any(|c| !c.1) {
+            st.nontrivial(&format!("cdbseq {}", seqdesc));
+        }
+        if case < 3 {
+            st.sample(json!({"kind": "classdef-builder-sequence", "calls": seqdesc}));
+        }
+        cw.push(format!(
+            "CCdbSeq {} {} {}",
+            cbool(use0),
+            clist(calls.iter(), |(c, r)| format!("({}, {})", czlist(c.iter().map(|g| *g as i128)), cbool(*r))),
+            cpairs(&probes)
+        ));
+    }
+}
+
 // ------------------------------------------------------------------------------------------------
 // canonical values
 
@@ -2553,6 +2654,7 @@ fn main() {
     classdef_cases(&mut rng, &mut st, &mut cw, 500 * scale);
     raw_classdef_cases(&mut rng, &mut st, &mut cw, 300 * scale);
     classdef_set_builder_oracle(&mut rng, &mut st, 200 * scale);
+    classdef_builder_sequence_cases(&mut rng, &mut st, &mut cw, 400 * scale);
 
     let pool = dev_pool();
     let mut cases: Vec<GposCase> = vec![];
